@@ -25,6 +25,18 @@ func runC05(p *core.Prog, r *core.Report) {
 	c05MustVerify(c)
 	c05Blame2(c)
 	c12Contexts(c.ctx)
+	// the resharing sentence of the property: old shares are erased only in the final round (R04.1)
+	// and a new member cannot abort after the acknowledgements (R04.5) — shared with C04
+	e := core.NewEffects(p)
+	for _, rel := range []string{"ecdsa/resharing", "eddsa/resharing"} {
+		pr := ExtractProtocol(p, rel)
+		if len(pr.Rounds) == 0 {
+			continue
+		}
+		final := pr.Rounds[len(pr.Rounds)-1]
+		c04Erase(c.ctx, e, pr, final)
+		c04NoAbortAfterAck(c.ctx, pr, final)
+	}
 }
 
 type vcall struct {
